@@ -6,6 +6,7 @@ package main
 import (
 	"os"
 	"path/filepath"
+	"time"
 
 	lib "github.com/whawty/auth/store"
 )
@@ -407,5 +408,85 @@ func VP_C10_HooksBurstThenManyChanges() {
 			vpSettle()
 		}
 	}
+	vpCover("end")
+}
+
+// VP_C11_ListReflectsAcknowledgedState: what list / list-full answer is the state left by the
+// operations completed before it - also after the agent changed a record on its own (a local
+// hash upgrade) - i.e. exactly what the store directory says.
+func VP_C11_ListReflectsAcknowledgedState() {
+	def := 1 + vpChoose("default", 2)
+	s, st, _, _ := vpAgent(def, vpModes())
+	same := func() bool {
+		got, gerr := st.List()
+		d, _ := lib.NewDirFromConfig(s.configfile)
+		want, werr := d.List()
+		if (gerr != nil) != (werr != nil) || len(got) != len(want) {
+			return false
+		}
+		for name, w := range want {
+			g, ok := got[name]
+			if !ok || g.IsAdmin != w.IsAdmin || !g.LastChanged.Equal(w.LastChanged) {
+				return false
+			}
+		}
+		return true
+	}
+	vpAssert("list-equals-the-directory", same())
+	vpSleep(2) // a later change carries a later time stamp
+	switch vpChoose("then", 4) {
+	case 0:
+		st.Authenticate("u", "old") // queues a local upgrade if the hash is upgradeable
+	case 1:
+		st.Update("u", "new")
+	case 2:
+		st.SetAdmin("u", true)
+	case 3:
+		st.Add("w", "wpw", false)
+	}
+	vpSettle()
+	vpAssert("list-equals-the-directory-after-the-change", same())
+	vpCover("end")
+}
+
+// VP_C11_WebUpdateRacesPasswordChange: the HTTP update handler (a request that carries the
+// current password) runs while another client changes that user's password; every interleaving
+// at blocking points: an acknowledged change is never undone by the older request.
+func VP_C11_WebUpdateRacesPasswordChange() {
+	mode := ""
+	if vpTier() == 1 {
+		mode = vpModes()
+	}
+	s, st, _, _ := vpAgent(1, mode)
+	f, err := NewWebSessionFactory(vpLifetime * time.Second)
+	if err != nil {
+		panic("setup")
+	}
+	doc := map[string]interface{}{"username": "u", "oldpassword": "old"}
+	withNew := vpChoose("handler-sets-a-new-password", 2) == 1
+	if withNew {
+		doc["newpassword"] = "viaweb"
+	}
+	rec := vpNewRecorder()
+	body := vpJSON(doc)
+	vpSchedExplore(true)
+	done := make(chan bool, 2)
+	var uerr error
+	go func() { vpServe(handleWebUpdate, st, f, rec, vpReqWith(body)); done <- true }()
+	go func() { uerr = st.Update("u", "new"); done <- true }()
+	a := vpAwait(done)
+	b := vpAwait(done)
+	vpSchedExplore(false)
+	vpAssert("both-answered", a && b)
+	vpSettle()
+	d, _ := lib.NewDirFromConfig(s.configfile)
+	okOld, _, _, _, _ := d.Authenticate("u", "old")
+	okNew, _, _, _, _ := d.Authenticate("u", "new")
+	okWeb, _, _, _, _ := d.Authenticate("u", "viaweb")
+	webDone := withNew && rec.status == 200
+	// the two sequential orders: exactly one password works afterwards - the one written last;
+	// the old one only if nothing was written at all
+	vpAssert("sched: acknowledged-change-is-not-undone-by-the-web-request", vpImp(uerr == nil && !webDone, okNew && !okOld))
+	vpAssert("sched: exactly-one-password-works-afterwards", (okOld && !okNew && !okWeb) || (!okOld && okNew && !okWeb) || (!okOld && !okNew && okWeb))
 	vpCover("end")
 }
